@@ -70,12 +70,15 @@ CHECKS.update({
          'expression; z3 decides that no identifier (symbolic string, length <= 12) outside the vocabulary is classified and that, in the flattened grammar contexts of both editors, no earlier rule claims a register in operand position or a mnemonic / macro name at statement start; files parsed for well-formedness', '6 C20',
          'regex subset (literals, classes, quantifiers, |, groups, (?i), \\b, ^ $, edge look-arounds); each translated pattern compared with Python re on the vocabulary; Python re replays counterexamples in place of Oniguruma'),
 })
+CHECKS.update({
+ 'C15': ('PIPE shapes of the C01/C02/C06/C16/C17 families run with every `set` built by the assembler replaced by a stub whose iteration order the solver chooses (each iteration forks over all permutations, sets of <= 5 elements); z3 decides on every order and for all values that the output equals the order-free reference; every replayed witness is also run through the real command line under 7 hash seeds, from another working directory and with reversed include directories', '6 C15',
+         'variation modelled: set iteration order (symbolic), working directory / include order / hash seed (real runs, sampled); sets produced by set algebra or in modules outside the stub list iterate in CPython order'),
+})
 NA = {
 }
 PENDING = []
 NA_FIXED = {
  'C09': 'quantifier is over names/line text handled by re.findall + str.replace on concrete strings; Python re cannot run on symbolic strings and an SMT-string re-model would not be the real code (DESIGN 7)',
- 'C15': 'variation enters through interpreter hash randomisation and the OS environment - process parameters, not inputs of any function the symbolic executor can run (DESIGN 7)',
  'C18': 'every rewrite acts on text consumed by regexes on concrete strings; no numeric/boolean input is quantified, the solver would decide nothing the property asks (DESIGN 7)',
 }
 def main():
